@@ -231,6 +231,32 @@ def sibling(rng, f, allowed=None):
     return rep(f, path)
 
 
+def leaf_variants(f, atoms):
+    """every formula that differs from f in ONE place: an atom replaced by another atom, or the two operands of a binary operator exchanged
+    (formulas whose textual representations are as close as two different formulas can be)"""
+    out = []
+
+    def walk(g, rebuild):
+        if not (isinstance(g, tuple) and g and isinstance(g[0], str)):
+            return
+        if g[0] in ('atom', 'patom') and len(g) == 2 and isinstance(g[1], str):
+            for x in atoms:
+                if x != g[1]:
+                    out.append(rebuild((g[0], x)))
+            return
+        if len(g) == 3 and g[0] not in ('dia', 'box') and all(isinstance(x, tuple) and x and isinstance(x[0], str) for x in g[1:]) and g[1] != g[2]:
+            out.append(rebuild((g[0], g[2], g[1])))
+        for i, x in enumerate(g[1:], 1):
+            walk(x, lambda y, i=i, g=g: rebuild(g[:i] + (y,) + g[i + 1:]))
+    walk(f, lambda y: y)
+    seen, res = set(), []
+    for g in out:
+        if g != f and g not in seen:
+            seen.add(g)
+            res.append(g)
+    return res
+
+
 def consumes(p):
     """every run of the path takes at least one step"""
     t = p[0]
